@@ -229,10 +229,9 @@ Proof.
         destruct (is_argument it) eqn:Ia.
         -- destruct r as [|[b mb] r']; [destruct (unspec_later _ _ _ _ _); discriminate|].
            destruct b as [c2 a2 o2|n2 a2 o2|w|w|w]; destruct mb; try (destruct (unspec_later _ _ _ _ _); discriminate).
-           ++ destruct adj; [|destruct (unspec_later _ _ _ _ _); discriminate].
-              apply att_cons_cmd' in H. destruct H as (a' & H & ->). cbn [length] in Hn.
+           ++ apply att_cons_cmd' in H. destruct H as (a' & H & ->). cbn [length] in Hn.
               destruct (IH r' ltac:(lia) (S (S ix)) a' sub rest H) as (pre & w0 & -> & Hf & W & Ho & Hu & Hr).
-              exists ((Short c true os, false) :: (ArgWord w, false) :: pre), w0. split; [reflexivity|]. split; [exact Hf|].
+              exists ((Short c adj os, false) :: (ArgWord w, false) :: pre), w0. split; [reflexivity|]. split; [exact Hf|].
               unfold scan_cmd_good. cbn [at_roles at_occ tag_from app live_from]. repeat split.
               ** eapply WF_arg; eauto. reflexivity.
               ** cbn [occs_of word_of]. rewrite Ho. reflexivity.
@@ -246,10 +245,9 @@ Proof.
               ** cbn [occs_of word_of]. rewrite Ho. reflexivity.
               ** cbn [untag map fst]. f_equal. f_equal. exact Hu.
               ** intros y [<-|[<-|Hy]]; [exists k; auto|exists k; auto|apply Hr; exact Hy].
-        -- destruct adj; [destruct (unspec_later _ _ _ _ _); discriminate|].
-           apply att_cons_cmd' in H. destruct H as (a' & H & ->).
+        -- apply att_cons_cmd' in H. destruct H as (a' & H & ->).
            destruct (IH r ltac:(lia) (S ix) a' sub rest H) as (pre & w0 & -> & Hf & W & Ho & Hu & Hr).
-           exists ((Short c false os, false) :: pre), w0. split; [reflexivity|]. split; [exact Hf|].
+           exists ((Short c adj os, false) :: pre), w0. split; [reflexivity|]. split; [exact Hf|].
            unfold scan_cmd_good. cbn [at_roles at_occ tag_from app live_from]. repeat split.
            ++ eapply WF_flag; eauto.
            ++ rewrite (occs_flag items ix ix _ k _ W (le_n ix)). rewrite Ho. reflexivity.
@@ -260,10 +258,9 @@ Proof.
         destruct (is_argument it) eqn:Ia.
         -- destruct r as [|[b mb] r']; [destruct (unspec_later _ _ _ _ _); discriminate|].
            destruct b as [c2 a2 o2|n2 a2 o2|w|w|w]; destruct mb; try (destruct (unspec_later _ _ _ _ _); discriminate).
-           ++ destruct adj; [|destruct (unspec_later _ _ _ _ _); discriminate].
-              apply att_cons_cmd' in H. destruct H as (a' & H & ->). cbn [length] in Hn.
+           ++ apply att_cons_cmd' in H. destruct H as (a' & H & ->). cbn [length] in Hn.
               destruct (IH r' ltac:(lia) (S (S ix)) a' sub rest H) as (pre & w0 & -> & Hf & W & Ho & Hu & Hr).
-              exists ((Long nm true os, false) :: (ArgWord w, false) :: pre), w0. split; [reflexivity|]. split; [exact Hf|].
+              exists ((Long nm adj os, false) :: (ArgWord w, false) :: pre), w0. split; [reflexivity|]. split; [exact Hf|].
               unfold scan_cmd_good. cbn [at_roles at_occ tag_from app live_from]. repeat split.
               ** eapply WF_arg; eauto. reflexivity.
               ** cbn [occs_of word_of]. rewrite Ho. reflexivity.
@@ -277,10 +274,9 @@ Proof.
               ** cbn [occs_of word_of]. rewrite Ho. reflexivity.
               ** cbn [untag map fst]. f_equal. f_equal. exact Hu.
               ** intros y [<-|[<-|Hy]]; [exists k; auto|exists k; auto|apply Hr; exact Hy].
-        -- destruct adj; [destruct (unspec_later _ _ _ _ _); discriminate|].
-           apply att_cons_cmd' in H. destruct H as (a' & H & ->).
+        -- apply att_cons_cmd' in H. destruct H as (a' & H & ->).
            destruct (IH r ltac:(lia) (S ix) a' sub rest H) as (pre & w0 & -> & Hf & W & Ho & Hu & Hr).
-           exists ((Long nm false os, false) :: pre), w0. split; [reflexivity|]. split; [exact Hf|].
+           exists ((Long nm adj os, false) :: pre), w0. split; [reflexivity|]. split; [exact Hf|].
            unfold scan_cmd_good. cbn [at_roles at_occ tag_from app live_from]. repeat split.
            ++ eapply WF_flag; eauto.
            ++ rewrite (occs_flag items ix ix _ k _ W (le_n ix)). rewrite Ho. reflexivity.
